@@ -186,6 +186,21 @@ Lemma kernel_rim_rowwise : forall (kern : mat -> mat -> mat), kernel_rowwise ker
      (forall i, krim_predict o kern m (select r Xtrain) i = krim_fit_labels o m (r i))).
 Proof. intros kern H. split; [exact (krim_rowwise kern H) | exact (krim_train kern H)]. Qed.
 
+(* predictions after a fit do not depend on what an earlier fit left on the object, and the training
+   predictions are the labels of the LAST fit.  Definitional in the model (fit re-assigns every attribute
+   predict reads and there is no prediction-time cache); the tie to the code is the refit stream of the harness. *)
+Lemma refit_history_independent : forall (kern : mat -> mat -> mat) (prev1 prev2 : option model) (kprev1 kprev2 : option krim)
+    (learned : model) ntrain K (Xtrain W : mat) (b : vec) (X : mat) i,
+  (forall k, predict_proba o (refit prev1 learned) X i k = predict_proba o (refit prev2 learned) X i k) /\
+  predict o (refit prev1 learned) X i = predict o (refit None learned) X i /\
+  predict o (refit prev1 learned) Xtrain i = fit_labels o learned Xtrain i /\
+  (forall k, krim_predict_proba o kern (krim_refit kern kprev1 ntrain K Xtrain W b) X i k =
+             krim_predict_proba o kern (krim_refit kern kprev2 ntrain K Xtrain W b) X i k) /\
+  kr_input (krim_refit kern kprev1 ntrain K Xtrain W b) = Xtrain /\
+  krim_predict o kern (krim_refit kern kprev1 ntrain K Xtrain W b) Xtrain i =
+    krim_fit_labels o (krim_fit_store kern ntrain K Xtrain W b) i.
+Proof. intros. repeat split; destruct learned; reflexivity. Qed.
+
 (* ------------------------------------------------------------------ 4. Tree.predict *)
 Lemma scatter_Forall2 {A : Type} (g : A -> bool) (R1 R2 : A -> Z -> Prop) : forall X pl pr,
   Forall2 R1 (pick true (map g X) X) pl -> Forall2 R2 (pick false (map g X) X) pr ->
